@@ -645,7 +645,7 @@ def evidence_meta(tier):
                'of 1-3 versions of the extensional facts, tamper (another client drops a grounded table or replaces '
                'it by garbage), immediate re-run, and runs with an injected fault (abort before statement k, '
                'interrupt of statement k after n VM steps, disk full, database locked by another connection; after such an engine error the failed run\'s connection may stay referenced for the rest of the history, as an exception kept by a notebook would do). '
-               'Programs: 3-6 generated predicates, 1-4 of them grounded. Every history with faults also runs as '
+               'Programs: 3-6 generated predicates (bag, distinct, aggregating; some top-N through @OrderBy over all columns + @Limit; explicit table names; a second attached database), 1-4 of them grounded. A lock fault is another client whose write transaction stays open for a drawn number of statements of the run; a pause the system takes only advances the simulated clock. Every case starts in a simulated process of its own and every logica.py invocation runs in another. Two fixed inputs (known findings) run in batch 0. Every history with faults also runs as '
                'its fault-free twin; for a subset of histories every abort position 1..8 (thorough: 1..14) of every run is '
                'enumerated (aborted run, same run again, rest of the history). A run is one history. Non-trivial = '
                'a completed run started from a stale, tampered or partially written database; distinct = SHA-256 of the history.'),
